@@ -7,19 +7,71 @@
 //!      followed by editing keys (cursor keys, Backspace, Delete, a symbol, a mode toggle, a syllable).
 //!  (c) an editing sweep: Delete / Backspace / a symbol / a syllable at every cursor position of a buffer
 //!      of 3..10 symbols.
+//!  (d) appended sessions: a candidate list that is open while the language mode / an option changes, and the cursor
+//!      bookkeeping LATER: fill, put the cursor anywhere, open a list (Down / `start_selecting` / the backquote symbol
+//!      table), optionally move it (j / k), then one of the mode / option events CapsLock (closes the list),
+//!      Shift-Space (rejected, the list stays), `set_editor_options` with the language mode changed (what
+//!      `chewing_set_ChiEngMode` does; the list stays) or with the character form changed, closed by Esc / Up /
+//!      Backspace / `cancel_selecting` / CapsLock; back to Chinese mode (CapsLock or the configuration call); the cursor
+//!      moved elsewhere; then each later site that restores a saved cursor: a symbol chosen from the backquote symbol
+//!      table (leaf, or category + leaf), another list left with Esc, a phrase chosen, another list closed by CapsLock,
+//!      `start_selecting` + `cancel_selecting`; a syllable typed in between, twice over.
 //! Everything is derived from the session number (reproducible, independent of VERIF_SEED).
 use crate::script_c18::base_opts;
+use crate::step::option;
 use crate::Op;
 use chewing::editor::keyboard::{KeyCode, Modifiers};
+use chewing::dictionary::LookupStrategy;
+use chewing::editor::{CharacterForm, ConversionEngineKind, EditorOptions, LanguageMode, UserPhraseAddDirection};
 use std::collections::VecDeque;
 use vharness::Rng;
 
-pub fn n_sessions(thorough: bool) -> u64 {
+fn n_old(thorough: bool) -> u64 {
     if thorough { 6000 } else { 360 }
 }
 
+pub fn n_sessions(thorough: bool) -> u64 {
+    n_old(thorough) + if thorough { 3000 } else { 240 }
+}
+
+/// one scripted step: an operation, or one that depends on the options in force when its turn comes
+enum Item {
+    Op(Op),
+    /// `set_editor_options` with the language mode flipped (`chewing_set_ChiEngMode`)
+    FlipLanguageByCall,
+    /// `set_editor_options` with the character form flipped (`chewing_set_ShapeMode`)
+    FlipFormByCall,
+    /// if the editor is in English mode: back to Chinese, by CapsLock (true) or by the configuration call
+    BackToChinese(bool),
+}
+
 pub struct Script {
-    queue: VecDeque<Op>,
+    queue: VecDeque<Item>,
+}
+
+/// the options in force, read from the snapshot (struct order, see `opts_s`)
+fn opts_of(snap: &str) -> EditorOptions {
+    let b = |i: usize| option(snap, i) != 0;
+    EditorOptions {
+        easy_symbol_input: b(0),
+        esc_clear_all_buffer: b(1),
+        space_is_select_key: b(2),
+        auto_shift_cursor: b(3),
+        phrase_choice_rearward: b(4),
+        disable_auto_learn_phrase: b(5),
+        auto_commit_threshold: option(snap, 6),
+        candidates_per_page: option(snap, 7),
+        language_mode: if b(8) { LanguageMode::English } else { LanguageMode::Chinese },
+        character_form: if b(9) { CharacterForm::Fullwidth } else { CharacterForm::Halfwidth },
+        user_phrase_add_dir: if b(10) { UserPhraseAddDirection::Backward } else { UserPhraseAddDirection::Forward },
+        lookup_strategy: if b(11) { LookupStrategy::FuzzyPartialPrefix } else { LookupStrategy::Standard },
+        conversion_engine: match option(snap, 12) {
+            0 => ConversionEngineKind::SimpleEngine,
+            2 => ConversionEngineKind::FuzzyChewingEngine,
+            _ => ConversionEngineKind::ChewingEngine,
+        },
+        enable_fullwidth_toggle_key: b(13),
+    }
 }
 
 fn key(c: KeyCode) -> Op {
@@ -50,9 +102,12 @@ fn wander(q: &mut VecDeque<Op>, rng: &mut Rng) {
 }
 
 impl Script {
-    pub fn new(sid: u64, _thorough: bool) -> Script {
+    pub fn new(sid: u64, thorough: bool) -> Script {
         use KeyCode::*;
         let mut rng = Rng::new(0xC05_u64.wrapping_mul(1_000_003).wrapping_add(sid));
+        if sid >= n_old(thorough) {
+            return Script { queue: list_under_mode_change(&mut rng) };
+        }
         let mut q = VecDeque::new();
         q.push_back(Op::SetLayout(0));
         let mut o = base_opts();
@@ -121,10 +176,167 @@ impl Script {
                 q.push_back(key(k));
             }
         }
-        Script { queue: q }
+        Script { queue: q.into_iter().map(Item::Op).collect() }
     }
 
-    pub fn next(&mut self, _snap: &str) -> Option<Op> {
-        self.queue.pop_front()
+    pub fn next(&mut self, snap: &str) -> Option<Op> {
+        loop {
+            return Some(match self.queue.pop_front()? {
+                Item::Op(op) => op,
+                Item::FlipLanguageByCall => {
+                    let mut o = opts_of(snap);
+                    o.language_mode = if o.language_mode == LanguageMode::Chinese { LanguageMode::English } else { LanguageMode::Chinese };
+                    Op::SetOpts(o)
+                }
+                Item::FlipFormByCall => {
+                    let mut o = opts_of(snap);
+                    o.character_form = if o.character_form == CharacterForm::Halfwidth { CharacterForm::Fullwidth } else { CharacterForm::Halfwidth };
+                    Op::SetOpts(o)
+                }
+                Item::BackToChinese(by_key) => {
+                    if option(snap, 8) == 0 {
+                        continue;
+                    }
+                    if by_key {
+                        Op::Key(KeyCode::Unknown, Modifiers::capslock())
+                    } else {
+                        let mut o = opts_of(snap);
+                        o.language_mode = LanguageMode::Chinese;
+                        Op::SetOpts(o)
+                    }
+                }
+            });
+        }
     }
+}
+
+/// family (d), see the module comment
+fn list_under_mode_change(rng: &mut Rng) -> VecDeque<Item> {
+    use KeyCode::*;
+    let mut ops: VecDeque<Op> = VecDeque::new();
+    let mut q: VecDeque<Item> = VecDeque::new();
+    ops.push_back(Op::SetLayout(0));
+    if rng.chance(2, 3) {
+        ops.push_back(Op::SetEngine(1));
+    }
+    let mut o = base_opts();
+    o.auto_shift_cursor = rng.chance(1, 3);
+    o.phrase_choice_rearward = rng.chance(1, 3);
+    o.auto_commit_threshold = if rng.chance(1, 5) { 4 + rng.below(5) as usize } else { 39 };
+    ops.push_back(Op::SetOpts(o));
+    let n = 3 + rng.below(5);
+    // syllables the session's dictionary very likely has words for, mixed with punctuation
+    for _ in 0..n {
+        if rng.chance(2, 3) {
+            for k in *rng.pick(&[&[H, K, N4][..], &[G, N4], &[S, U, N3], &[C, L, N3]]) {
+                ops.push_back(key(*k));
+            }
+        } else {
+            ops.push_back(Op::Key(*rng.pick(&[Comma, Dot, N1, LBracket]), Modifiers::shift()));
+        }
+    }
+    q.extend(ops.drain(..).map(Item::Op));
+    let place = |q: &mut VecDeque<Item>, rng: &mut Rng| match rng.below(4) {
+        0 => q.push_back(Item::Op(key(End))),
+        1 => {
+            q.push_back(Item::Op(key(End)));
+            for _ in 0..1 + rng.below(3) {
+                q.push_back(Item::Op(key(Left)));
+            }
+        }
+        _ => {
+            q.push_back(Item::Op(key(Home)));
+            for _ in 0..rng.below(n + 1) {
+                q.push_back(Item::Op(key(Right)));
+            }
+        }
+    };
+    let open = |q: &mut VecDeque<Item>, rng: &mut Rng, table: bool| {
+        if table {
+            q.push_back(Item::Op(key(Grave)));
+        } else if rng.chance(1, 4) {
+            q.push_back(Item::Op(Op::StartSel));
+        } else {
+            q.push_back(Item::Op(key(Down)));
+        }
+    };
+    // the cursor anywhere, a list opened there, possibly moved
+    place(&mut q, rng);
+    let table = rng.chance(1, 6);
+    open(&mut q, rng, table);
+    if !table {
+        for _ in 0..*rng.pick(&[0u64, 0, 0, 1, 2]) {
+            q.push_back(Item::Op(key(*rng.pick(&[J, K, Down]))));
+        }
+    }
+    // the mode / option event while the list is open, and how the list goes away
+    let leave = |q: &mut VecDeque<Item>, rng: &mut Rng| match rng.below(6) {
+        0 | 1 => q.push_back(Item::Op(key(Esc))),
+        2 => q.push_back(Item::Op(key(Up))),
+        3 => q.push_back(Item::Op(key(Backspace))),
+        4 => q.push_back(Item::Op(Op::CancelSel)),
+        _ => q.push_back(Item::Op(Op::Key(Unknown, Modifiers::capslock()))),
+    };
+    match rng.below(8) {
+        0 | 1 | 2 | 3 => q.push_back(Item::Op(Op::Key(Unknown, Modifiers::capslock()))),
+        4 => {
+            q.push_back(Item::Op(Op::Key(Space, Modifiers::shift())));
+            leave(&mut q, rng);
+        }
+        5 | 6 => {
+            q.push_back(Item::FlipLanguageByCall);
+            leave(&mut q, rng);
+        }
+        _ => {
+            q.push_back(Item::FlipFormByCall);
+            leave(&mut q, rng);
+        }
+    }
+    if rng.chance(7, 8) {
+        q.push_back(Item::BackToChinese(rng.chance(2, 3)));
+    }
+    // later: the cursor elsewhere, and every site that restores a saved cursor
+    for round in 0..2 {
+        place(&mut q, rng);
+        if rng.chance(1, 2) {
+            for k in [G, N4] {
+                q.push_back(Item::Op(key(k)));
+            }
+        }
+        if round == 1 && rng.chance(1, 2) {
+            q.push_back(Item::Op(key(Left)));
+        }
+        match rng.below(10) {
+            0 | 1 | 2 => {
+                q.push_back(Item::Op(key(Grave)));
+                q.push_back(Item::Op(key(*rng.pick(&[N1, N2]))));
+            }
+            3 | 4 => {
+                q.push_back(Item::Op(key(Grave)));
+                q.push_back(Item::Op(key(*rng.pick(&[N3, N4]))));
+                q.push_back(Item::Op(if rng.chance(1, 3) { Op::Select(rng.below(3) as usize) } else { key(*rng.pick(&[N1, N2, N3])) }));
+            }
+            5 | 6 => {
+                open(&mut q, rng, false);
+                q.push_back(Item::Op(key(Esc)));
+            }
+            7 => {
+                open(&mut q, rng, false);
+                q.push_back(Item::Op(if rng.chance(1, 2) { Op::Select(0) } else { key(N1) }));
+            }
+            8 => {
+                open(&mut q, rng, false);
+                q.push_back(Item::Op(Op::Key(Unknown, Modifiers::capslock())));
+                q.push_back(Item::BackToChinese(true));
+            }
+            _ => {
+                q.push_back(Item::Op(Op::StartSel));
+                q.push_back(Item::Op(Op::CancelSel));
+            }
+        }
+        for k in [H, K, N4] {
+            q.push_back(Item::Op(key(k)));
+        }
+    }
+    q
 }
